@@ -19,6 +19,9 @@ Outcome alphabet (one letter per connection attempt; what the 'network' and the 
         DELIVERED BEFORE the future of create_connection() completes (a real loop resumes the awaiting task several
         iterations after connection_made(); everything above fits in between).  On Twisted the endpoint Deferred
         fires synchronously after makeConnection(), so the ordering does not exist: He/Hde are played as H/Hd.
+    D<p><c|u>  the peer ends the TCP connection BEFORE a session exists: p=0 right after accept, p=1 after it read the client's
+        handshake octets, p=2 after a partial handshake reply; c = orderly close (FIN: Twisted ConnectionDone, asyncio
+        connection_lost(None)), u = reset.  (Hd is D0u.)
     A   transport up, HELLO answered with ABORT
     L   WELCOME, then TCP lost (reset)              Lc  WELCOME, then TCP closed cleanly without GOODBYE
     K   WELCOME, then the ROUTER closes the session (GOODBYE wamp.close.system_shutdown)
@@ -50,6 +53,9 @@ APPLICABLE = {           # phases of an attempt that exist for an outcome
     "Hde": ("delay", "inflight", "connected"), "He": ("delay", "inflight", "connected"),
     "A": ("delay", "inflight", "connected", "handshaken"),
 }
+PRESESSION = tuple("D%d%s" % (_p, _c) for _p in (0, 1, 2) for _c in "cu")
+for _o in PRESESSION:
+    APPLICABLE[_o] = ("delay", "inflight", "connected")
 for _o in JOINING:
     APPLICABLE[_o] = PHASES
 
@@ -284,6 +290,26 @@ class Run:
             if outcome in ("Hd", "Hde"):
                 rc.lose(False)
                 rec["end"] = "dropped-before-handshake"
+            elif outcome in PRESESSION:
+                point, clean = int(outcome[1]), outcome[2] == "c"
+                if point >= 1:
+                    rc.ep.take_output()                    # the peer has read the client's handshake octets
+                if point == 2:
+                    if kind == "websocket":
+                        rc.ep.feed(b"HTTP/1.1 101 Switching Protocols\r\nUpgrade: websocket\r\n")
+                    else:
+                        rc.ep.feed(bytes([0x7F, 0xF1]))      # 2 of the 4 RawSocket handshake octets
+                    self.world.settle()
+                if not rc.ep.lost:
+                    rc.lose(clean)
+                if not rc.ep.lost:
+                    # (asyncio: a protocol may keep the half-closed transport; the peer's socket is gone for good)
+                    if not rc.drain_close():
+                        rc.lose(False)
+                    rec["half_closed_kept"] = True
+                rec["presession"] = "clean" if clean else "reset"
+                rec["end"] = "peer-%s-%s" % ("closed" if clean else "reset",
+                                             ("after-accept", "after-client-handshake", "after-partial-reply")[point])
             elif outcome in ("H", "He"):
                 rc.ep.take_output()
                 if kind == "websocket":
